@@ -120,8 +120,8 @@ PROPS['C15'] = dict(
 
 PROPS['C16'] = dict(
     unit_modules=['contracts.c16_math'], driver_modules=['drivers.c16'], level='other',
-    level_text="What a proof over the reals can decide, on the real math functions: wiring - each elementary function hands the right argument(s) to the right numpy/math routine (ATAN2(x,y)=atan2(y,x), LOG(x,b)=ln x/ln b, ...); domain - arguments outside the domain give an Excel error value, never a Python exception (ACOS/ASIN/ACOSH/SQRT/SQRTPI/FACT/FACTDOUBLE/LN/LOG10/LOG/MOD); exact - ABS, SIGN, EVEN, TRUNC(x), MOD(x,y) = x - y*floor(x/y) with the sign-of-divisor lemma. The statement's actual content - agreement with correctly rounded IEEE-754 / exact decimal reference values to a few ulp for ROUND/ROUNDUP/ROUNDDOWN/TRUNC(n)/INT/CEILING/FLOOR/MOD/POWER and the elementary functions - is NOT provable with floats as reals and is BOUNDED: against `decimal` and mpmath on boundary and seeded inputs. Claimed 'other'.",
-    level_note="Assumption A-float is decisive here: ulp accuracy, overflow and every decimal-representation effect are invisible to the proof layer. Trusted: numpy/math routines as uninterpreted functions; decimal / mpmath as the bounded layer's oracle.",
+    level_text="What a proof over the reals can decide, on the real math functions: wiring - each elementary function hands the right argument(s) to the right numpy/math routine (ATAN2(x,y)=atan2(y,x), LOG(x,b)=ln x/ln b, ...); domain - arguments outside the domain give an Excel error value, never a Python exception (ACOS/ASIN/ACOSH/SQRT/SQRTPI/FACT/FACTDOUBLE/LN/LOG10/LOG/MOD); exact - ABS, SIGN, EVEN, TRUNC(x), MOD(x,y) = x - y*floor(x/y) with the sign-of-divisor lemma; the rounding family on an exact model of decimal.Decimal - ROUND (half away from zero), ROUNDUP, ROUNDDOWN, TRUNC(x,n) for digit counts -2..3, INT, and CEILING / FLOOR for five significances, for ALL real x: the real `_round`, the local decimal context's rounding mode, round(d, n) and to_integral_value are interpreted, the reference is floor / ceiling of |x|*10^n written independently. The statement's actual content - agreement with correctly rounded IEEE-754 reference values to a few ulp for MOD/POWER and the elementary functions, and every effect of the binary representation on the rounding family (Decimal(str(x)) is identified with x) - is NOT provable with floats as reals and is BOUNDED: against `decimal` and mpmath on boundary and seeded inputs. Claimed 'other'.",
+    level_note="Assumption A-float is decisive here: ulp accuracy, overflow and every decimal-representation effect are invisible to the proof layer. Trusted: numpy/math routines as uninterpreted functions; pyvc/models_decimal.py (exact real arithmetic and the seven rounding modes of decimal; precision ignored - the repository sets 400 digits); decimal / mpmath as the bounded layer's oracle.",
     trusted_base=['intrinsic axioms of the uninterpreted builtins (pyvc/models.py UF_AXIOMS), natively tested on every run', 'numpy ufuncs / math functions as uninterpreted (wiring only)', 'mpmath + decimal (bounded oracle)'],
     explanation='C16: wiring, domain and exact-arithmetic facts proved; numerical accuracy bounded against decimal/mpmath.', assumptions=COMMON_ASSUMPTIONS,
 )
